@@ -1116,6 +1116,8 @@ class CGen:
             if newv is None:
                 raise IRError("atomicrmw %s" % rmw)
             st = ["VP_ATOMIC_BEGIN();"]
+            if self.race:
+                st.append("VP_RACE_AW(%s, %d);" % (p, self.m.sizeof(ins.ty)))
             if r:
                 st.append("%s = *%s;" % (r, p))
             st.append("*%s = %s;" % (p, newv))
@@ -1124,7 +1126,7 @@ class CGen:
         if op == "cmpxchg":
             p, c, n = [self.val(x) for x in ins.ops]
             r = self.lnames[ins.res]
-            return ["VP_ATOMIC_BEGIN();", "%s.f0 = *%s;" % (r, p), "%s.f1 = (%s.f0 == %s);" % (r, r, c),
+            return (["VP_RACE_AW(%s, %d);" % (p, self.m.sizeof(ins.ops[1].ty))] if self.race else []) + ["VP_ATOMIC_BEGIN();", "%s.f0 = *%s;" % (r, p), "%s.f1 = (%s.f0 == %s);" % (r, r, c),
                     "if (%s.f1) *%s = %s;" % (r, p, n), "VP_ATOMIC_END();"]
         if op == "fence":
             return "VP_FENCE();"
@@ -1158,8 +1160,11 @@ class CGen:
         return ["VP_CHK(%s, %d);" % (p, sz)]
 
     def race_wrap(self, ins, p, is_write):
-        if not self.race or ins.attrs.get("atomic"):
+        if not self.race:
             return [], []
+        if ins.attrs.get("atomic"):
+            t = ins.ty if ins.op == "load" else ins.ops[0].ty
+            return ["VP_RACE_A%s(%s, %d);" % ("W" if is_write else "R", p, self.m.sizeof(t))], []
         t = ins.ty if ins.op == "load" else ins.ops[0].ty
         try:
             sz = self.m.sizeof(t)
